@@ -109,12 +109,13 @@ def r3_load_once(ctx, classes):
             continue
         for mname, fn in c.methods.items():
             for x in walk_shallow(fn):
-                if isinstance(x, ast.Call) and (unparse(x.func) == "self._row" or (isinstance(x.func, ast.Name) and x.func.id == "row" and mname == "_load_or_get")):
+                ROWV = [t.id for a in walk_shallow(fn) if isinstance(a, ast.Assign) and unparse(a.value) == "self._row" for t in a.targets if isinstance(t, ast.Name)]
+                if isinstance(x, ast.Call) and (unparse(x.func) == "self._row" or (isinstance(x.func, ast.Name) and x.func.id in ROWV and mname == "_load_or_get")):
                     n += 1
                     ctx.ob("C13.R3", c.rel, f"{c.qual}.{mname}", x, "the row loader is invoked only inside _load_or_get", mname == "_load_or_get")
         lg = c.methods["_load_or_get"]
         stores = [x for x in walk_shallow(lg) if isinstance(x, ast.Assign) and any(is_self_attr(t, "_row") for t in x.targets)]
-        guard = any(isinstance(x, ast.If) and "callable(row)" in unparse(x.test) and any(isinstance(s, ast.Return) for s in x.body) for x in walk_shallow(lg))
+        guard = any(isinstance(x, ast.If) and "callable(" in unparse(x.test) and any(isinstance(s, ast.Return) for s in x.body) for x in walk_shallow(lg))
         ctx.ob("C13.R3", c.rel, f"{c.qual}._load_or_get", lg, "the loaded row replaces the loader (so it is loaded at most once)", len(stores) == 1 and guard)
         # accessors reach the data only through _load_or_get
         for mname, fn in c.methods.items():
@@ -201,7 +202,10 @@ def r6_split(ctx):
     ctx.ob("C13.R6", ROWS, "DropOne.__getitem__", gi, "positions at or after the dropped index are shifted by one", ok)
     it = d.methods["__iter__"]
     r = unparse(next(x for x in walk_shallow(it) if isinstance(x, ast.Return)).value)
-    ctx.ob("C13.R6", ROWS, "DropOne.__iter__", it, "iteration skips exactly the dropped index", r == "iter(chain(islice(row, ind), islice(row, ind + 1, None)))", detail={"iter": r})
+    from ..util import name_bound
+    RW = name_bound(it, lambda v: unparse(v) == "self._row", "self._row")
+    IN = name_bound(it, lambda v: unparse(v) == "self._ind", "self._ind")
+    ctx.ob("C13.R6", ROWS, "DropOne.__iter__", it, "iteration skips exactly the dropped index", r == f"iter(chain(islice({RW}, {IN}), islice({RW}, {IN} + 1, None)))", detail={"iter": r})
 
 
 def r7_predicate_stage(ctx):
